@@ -14,46 +14,7 @@ KF_KEYS = {"C35-literal-metadata-dropped", "C35-alias-metadata-dropped", "C35-ca
            "C35-like-multibyte-escape-rejected"}
 
 
-def cs(s):
-    return '"' + s.replace('"', '""') + '"'
-
-
-def table_report(ck, pid, setname, gen, info):
-    """compile the regenerated tables alone and read the executable table check: failing variants are failing inputs"""
-    ok, out, dt = vlib.coq_make([gen + "o"])
-    if not ok:
-        ck.problem("translator", "generated %s does not compile:\n%s" % (gen, out[-1500:]))
-        return None
-    mod = gen[:-2].replace("/", ".")
-    pre = "From Coq Require Import List String ZArith.\nFrom DF Require Import Model.ProtoCodec %s.\nOpen Scope string_scope.\n" % mod
-    rc, flat = vlib.coq_eval_term(pre, "(map (fun r => (fst (fst (fst r)), snd (fst r), snd r)) generated_tables_%s, generated_stale_%s)" % (setname, setname),
-                                  tag=pid.lower() + "_tables")
-    if rc != 0:
-        ck.problem("translator", "evaluating the generated tables failed: " + flat[-800:])
-        return None
-    byname = {t["name"]: t for t in info["tables"]}
-    bad_total = 0
-    # entries look like ("JoinType", [], [])  /  ("X", ["A"; "B"], [("A", "B")])
-    body = flat.split(", [(", 1)
-    for m in re.finditer(r'\("(\w+)", (\[[^\]]*\]|nil), (\[(?:[^\]]*)\]|nil)\)', flat):
-        name, bad, clash = m.group(1), re.findall(r'"(\w+)"', m.group(2)), re.findall(r'\("(\w+)", "(\w+)"\)', m.group(3))
-        t = byname.get(name)
-        if t is None:
-            continue
-        for v in bad:
-            bad_total += 1
-            tag = t["enc"].get(v)
-            num = t["nums"].get(tag) if t.get("nums") else None
-            decoded = t["dec"].get(tag, t.get("dec_default"))
-            ck.fail_input("table %s: variant %s is encoded as %s%s and decoded as %s (encode match %s, decode match %s)"
-                          % (name, v, tag, "" if num is None else " = %d" % num, decoded, t["enc_at"], t["dec_at"]),
-                          {"table": name, "variant": v, "wire_tag": tag, "wire_number": num, "decoded": decoded,
-                           "encode_match": t["enc_at"], "decode_match": t["dec_at"]})
-        for a, b in clash:
-            ck.fail_input("table %s: variants %s and %s share the wire tag %s" % (name, a, b, t["enc"].get(a)),
-                          {"table": name, "variants": [a, b], "wire_tag": t["enc"].get(a), "encode_match": t["enc_at"]})
-    stale = re.findall(r'\("(\w+)", \[("[^\]]*)\]\)', flat.split("generated_stale", 1)[-1]) if False else []
-    return {"bad": bad_total, "raw": flat[-400:]}
+from props.protoenums_common import table_report, cs
 
 
 def run(pid, tier, seed, replay):
